@@ -362,6 +362,17 @@ def _mem2_newton_point(
 
 
 @numba.njit(cache=True)
+def _solve_newton_update(jacobian, rhs, rcond):
+    # The try/except lives in its own function (not inside the Newton loop):
+    # numba does not reliably transfer control to an exception handler that is
+    # nested in a loop, and the ValueError then escapes to the caller.
+    try:
+        return solve_cholesky(jacobian, rhs)
+    except Exception:
+        return np.linalg.lstsq(jacobian, rhs, rcond=rcond)[0]
+
+
+@numba.njit(cache=True)
 def mem2_newton_solver(
     moments: np.ndarray,
     guess: np.ndarray,
@@ -442,10 +453,7 @@ def mem2_newton_solver(
         jacobian = mem2_jacobian(
             current_iterate, twiddle_factors, direction_increment, jacobian
         )
-        try:
-            update_iterate = solve_cholesky(jacobian, -current_func)
-        except Exception:
-            update_iterate = np.linalg.lstsq(jacobian, -current_func, rcond=rcond)[0]
+        update_iterate = _solve_newton_update(jacobian, -current_func, rcond)
 
         magnitude_current_iterate = np.linalg.norm(current_iterate)
         magnitude_update = np.linalg.norm(update_iterate)
